@@ -19,6 +19,13 @@ pub struct HugeCase {
     pub n: usize,
     pub pattern: u8,
     pub seed: u64,
+    /// C05: every public call of the script is bounded in priority comparisons
+    #[serde(default)]
+    pub cost: bool,
+    /// bit set of semantically neutral operations run before (and between) the measured ones: what
+    /// they leave behind (spare capacity, flags, renumbered slots) must not change any answer
+    #[serde(default)]
+    pub prelude: u16,
 }
 
 pub const HUGE_SIZES: [usize; 16] = [4095, 4096, 4097, 4098, 5000, 8191, 8192, 8193, 16384, 16385, 32768, 65535, 65536, 65537, 70001, 131073];
@@ -35,7 +42,7 @@ pub fn huge_cases(prop: u8) -> Vec<HugeCase> {
         for (i, &n) in HUGE_SIZES.iter().enumerate() {
             for pattern in 0..(if prop == 6 { 4u8 } else { 3u8 }) {
                 // C03/C08 visit a third of the grid each run (the seed rotates it)
-                v.push(HugeCase { huge: true, kind, n, pattern, seed: (i as u64) * 31 + pattern as u64 });
+                v.push(HugeCase { huge: true, kind, n, pattern, seed: (i as u64) * 31 + pattern as u64, cost: false, prelude: ((i as u16) * 37 + pattern as u16 * 11) & 0x3ff });
             }
         }
     }
@@ -43,7 +50,7 @@ pub fn huge_cases(prop: u8) -> Vec<HugeCase> {
         // many moderately large queues: a partial iter_mut with a dozen rewrites followed by a full
         // drain (an incremental re-seating of the visited elements only fails for some arrangements)
         for s in 0..2400u64 {
-            v.push(HugeCase { huge: true, kind: if s % 2 == 0 { Kind::DPQ } else { Kind::PQ }, n: 4096 + (s as usize * 37) % 1100, pattern: 2, seed: 1000 + s });
+            v.push(HugeCase { huge: true, kind: if s % 2 == 0 { Kind::DPQ } else { Kind::PQ }, n: 4096 + (s as usize * 37) % 1100, pattern: 2, seed: 1000 + s, cost: false, prelude: 0 });
         }
     }
     v
@@ -103,11 +110,136 @@ fn prio(pattern: u8, i: usize, n: usize) -> i64 {
 
 type R = Result<(), (Group, &'static str, String)>;
 
-fn verify<Q: Queue>(q: &Q, m: &M, what: &'static str, st: &mut u64) -> R {
-    if q.len() != m.len() {
-        return Err((Group::Content, what, format!("len()={} model={}", q.len(), m.len())));
+thread_local! {
+    static COST: std::cell::Cell<bool> = const { std::cell::Cell::new(false) };
+}
+fn cost_on() -> bool {
+    COST.with(|c| c.get())
+}
+#[derive(Clone, Copy)]
+enum CK {
+    /// no comparison at all (peek, peek_min, len, lookups)
+    Zero,
+    /// at most one (peek_max of the double-ended queue)
+    One,
+    /// A * (floor(log2 n) + 1) + B
+    Log,
+    /// per-element constant of the heap kind that is rebuilt, times the number of elements
+    Linear(usize),
+    /// k single-element insertions or one rebuild, whichever the implementation prefers
+    Extend(usize, usize),
+}
+#[inline]
+fn cstart() {
+    if cost_on() {
+        reset_cmp_count();
     }
+}
+fn cend<Q: Queue>(op: &'static str, n: usize, ck: CK) -> R {
+    if !cost_on() {
+        return Ok(());
+    }
+    let got = cmp_count();
+    let lg = |n: usize| (usize::BITS - n.max(1).leading_zeros()) as u64;
+    let bound = match ck {
+        CK::Zero => 0,
+        CK::One => 1,
+        CK::Log => crate::cost::A * lg(n) + crate::cost::B,
+        CK::Linear(t) => (if Q::DOUBLE { crate::cost::C_DPQ } else { crate::cost::C_PQ }) * t as u64 + crate::cost::D,
+        CK::Extend(k, total) => crate::cost::A * k as u64 * lg(total) + crate::cost::C * total as u64 + crate::cost::D,
+    };
+    if got > bound {
+        return Err((Group::Cap, op, format!("{} on {} elements performed {} priority comparisons, bound {}", op, n, got, bound)));
+    }
+    Ok(())
+}
+
+/// semantically neutral operations chosen by the bits of `mask`
+fn neutral<Q: Queue>(q: &mut Q, mask: u16) -> R {
+    let n = q.len();
+    if mask & 1 != 0 {
+        cstart();
+        drop(q.iter_mut());
+        cend::<Q>("iter_mut_drop", n, CK::Linear(n))?;
+    }
+    if mask & 2 != 0 {
+        cstart();
+        let r = q.pop_max_if(|_, _| false);
+        cend::<Q>("pop_if", n, CK::Log)?;
+        if r.is_some() {
+            return Err((Group::Ret, "pop_if", "pop_if with a rejecting predicate returned an element".into()));
+        }
+    }
+    if mask & 4 != 0 {
+        cstart();
+        let r = q.try_reserve(usize::MAX / 2);
+        cend::<Q>("reserve", n, CK::Zero)?;
+        if r.is_ok() {
+            return Err((Group::Cap, "reserve", "try_reserve(usize::MAX / 2) succeeded".into()));
+        }
+    }
+    if mask & 8 != 0 {
+        cstart();
+        q.shrink_to_fit();
+        cend::<Q>("shrink_to_fit", n, CK::Zero)?;
+    }
+    if mask & 16 != 0 {
+        let o = std::mem::replace(q, Q::construct(CtorHow::WithDefaultHasher, HasherKind::Xx));
+        *q = o.into_other().into_other();
+    }
+    if mask & 32 != 0 {
+        cstart();
+        let _ = q.peek_max_mut();
+        if Q::DOUBLE {
+            let _ = q.peek_min_mut();
+        }
+        cend::<Q>("peek_mut", n, CK::One)?;
+    }
+    if mask & 64 != 0 {
+        cstart();
+        q.reserve(1000);
+        cend::<Q>("reserve", n, CK::Zero)?;
+    }
+    if mask & 128 != 0 {
+        cstart();
+        q.retain(|_, _| true);
+        cend::<Q>("retain", n, CK::Linear(n))?;
+    }
+    if mask & 256 != 0 && Q::DOUBLE {
+        cstart();
+        let r = q.pop_min_if(|_, _| false);
+        cend::<Q>("pop_if", n, CK::Log)?;
+        if r.is_some() {
+            return Err((Group::Ret, "pop_if", "pop_min_if with a rejecting predicate returned an element".into()));
+        }
+    }
+    if mask & 512 != 0 {
+        // an element is added and taken away again (renumbers nothing, but exercises the tail paths)
+        let id = u32::MAX - 5;
+        cstart();
+        q.push(Key::new(id, 0), Prio::new(i64::MIN + 3));
+        cend::<Q>("push", n + 1, CK::Log)?;
+        cstart();
+        let r = q.remove(&id);
+        cend::<Q>("remove", n + 1, CK::Log)?;
+        if r.map(|(k, p)| (k.id, p.v)) != Some((id, i64::MIN + 3)) {
+            return Err((Group::Ret, "remove", "remove of the element just pushed did not return it".into()));
+        }
+    }
+    Ok(())
+}
+
+fn verify<Q: Queue>(q: &Q, m: &M, what: &'static str, st: &mut u64) -> R {
+    cstart();
+    let l = q.len();
+    let e = q.is_empty();
+    cend::<Q>("len", l, CK::Zero)?;
+    if l != m.len() || e != (m.len() == 0) {
+        return Err((Group::Content, what, format!("len()={} is_empty()={} model={}", l, e, m.len())));
+    }
+    cstart();
     let pm = q.peek_max().map(|(k, p)| (k.id, p.v));
+    cend::<Q>(if Q::DOUBLE { "peek_max" } else { "peek" }, l, if Q::DOUBLE { CK::One } else { CK::Zero })?;
     match (pm, m.max()) {
         (None, None) => {}
         (Some((id, p)), Some(mx)) => {
@@ -121,7 +253,9 @@ fn verify<Q: Queue>(q: &Q, m: &M, what: &'static str, st: &mut u64) -> R {
         (a, b) => return Err((Group::Order, what, format!("peek_max {:?} model max {:?}", a, b))),
     }
     if Q::DOUBLE {
+        cstart();
         let pn = q.peek_min().map(|(k, p)| (k.id, p.v));
+        cend::<Q>("peek_min", l, CK::Zero)?;
         match (pn, m.min()) {
             (None, None) => {}
             (Some((_, p)), Some(mn)) => {
@@ -135,7 +269,10 @@ fn verify<Q: Queue>(q: &Q, m: &M, what: &'static str, st: &mut u64) -> R {
     // sampled lookups
     for _ in 0..8 {
         let probe = (rng(st) % (2 * m.len().max(1) as u64 + 8)) as u32;
+        cstart();
         let got = q.get_priority(&probe).map(|p| p.v);
+        let _ = q.get(&probe);
+        cend::<Q>("get", l, CK::Zero)?;
         if got != m.by_id.get(&probe).copied() {
             return Err((Group::Content, what, format!("get_priority({}) = {:?}, model {:?}", probe, got, m.by_id.get(&probe))));
         }
@@ -149,7 +286,9 @@ fn drain_all<Q: Queue>(q: &Q, m: &M, what: &'static str, st: &mut u64) -> R {
     let n = set.len();
     for i in 0..n {
         let take_max = !Q::DOUBLE || rng(st) % 2 == 0;
+        cstart();
         let got = if take_max { c.pop_max() } else { c.pop_min() }.map(|(k, p)| (p.v, k.id));
+        cend::<Q>("pop", n - i, CK::Log)?;
         let want = if take_max { set.iter().next_back().map(|x| x.0) } else { set.iter().next().map(|x| x.0) };
         match got {
             None => return Err((Group::Order, what, format!("drain: pop #{} returned None with {} left", i, set.len()))),
@@ -178,20 +317,33 @@ fn run<Q: Queue>(c: &HugeCase) -> R {
     for (k, p) in v.iter() {
         m.set(k.id, p.v);
     }
+    COST.with(|x| x.set(c.cost));
     let mut q: Q = if c.seed % 2 == 0 {
-        Q::from_vec(v)
+        cstart();
+        let q = Q::from_vec(v);
+        cend::<Q>("from_vec", n, CK::Linear(n))?;
+        q
     } else {
         let mut q = Q::construct(CtorHow::WithDefaultHasher, HasherKind::Xx);
-        for (k, p) in v {
+        for (j, (k, p)) in v.into_iter().enumerate() {
+            cstart();
             q.push(k, p);
+            cend::<Q>("push", j + 1, CK::Log)?;
         }
         q
     };
     verify(&q, &m, "construction", &mut st)?;
+    neutral(&mut q, c.prelude)?;
+    verify(&q, &m, "neutral", &mut st)?;
     let mut next_id = (4 * n) as u32;
     // single-element operations across the thresholds
-    for _ in 0..48 {
+    for step in 0..48u32 {
         let r = rng(&mut st);
+        if step % 12 == 7 {
+            // one of the neutral operations in between, rotating through the set bits
+            neutral(&mut q, c.prelude & (1u16 << ((step / 12 + (c.seed as u32)) % 10)))?;
+        }
+        let ln = q.len() + 1;
         let id = (r >> 8) as u32 % (n as u32 + 40);
         let p = match (r >> 40) % 6 {
             0 => m.max().unwrap_or(0) + 1,
@@ -202,7 +354,9 @@ fn run<Q: Queue>(c: &HugeCase) -> R {
         };
         let what: &'static str = match r % 8 {
             0 => {
+                cstart();
                 let got = q.pop_max().map(|(k, pr)| (pr.v, k.id));
+                cend::<Q>("pop", ln, CK::Log)?;
                 let want = m.max();
                 if got.map(|g| g.0) != want {
                     return Err((Group::Order, "pop", format!("pop/pop_max returned {:?}, the maximum is {:?}", got, want)));
@@ -213,7 +367,9 @@ fn run<Q: Queue>(c: &HugeCase) -> R {
                 "pop"
             }
             1 if Q::DOUBLE => {
+                cstart();
                 let got = q.pop_min().map(|(k, pr)| (pr.v, k.id));
+                cend::<Q>("pop", ln, CK::Log)?;
                 let want = m.min();
                 if got.map(|g| g.0) != want {
                     return Err((Group::Order, "pop", format!("pop_min returned {:?}, the minimum is {:?}", got, want)));
@@ -224,7 +380,9 @@ fn run<Q: Queue>(c: &HugeCase) -> R {
                 "pop"
             }
             2 => {
+                cstart();
                 let got = q.push(Key::new(next_id, 0), Prio::new(p)).map(|x| x.v);
+                cend::<Q>("push", ln, CK::Log)?;
                 if got.is_some() {
                     return Err((Group::Ret, "push", format!("push of a new item returned {:?}", got)));
                 }
@@ -233,7 +391,9 @@ fn run<Q: Queue>(c: &HugeCase) -> R {
                 "push"
             }
             3 => {
+                cstart();
                 let got = q.change_priority(&id, Prio::new(p)).map(|x| x.v);
+                cend::<Q>("change_priority", ln, CK::Log)?;
                 let want = if m.by_id.contains_key(&id) { m.set(id, p) } else { None };
                 if got != want {
                     return Err((Group::Ret, "change_priority", format!("change_priority({},{}) returned {:?}, model {:?}", id, p, got, want)));
@@ -241,7 +401,9 @@ fn run<Q: Queue>(c: &HugeCase) -> R {
                 "change_priority"
             }
             4 => {
+                cstart();
                 let got = q.remove(&id).map(|(k, pr)| (k.id, pr.v));
+                cend::<Q>("remove", ln, CK::Log)?;
                 let want = m.remove(id).map(|o| (id, o));
                 if got != want {
                     return Err((Group::Ret, "remove", format!("remove({}) returned {:?}, model {:?}", id, got, want)));
@@ -250,7 +412,9 @@ fn run<Q: Queue>(c: &HugeCase) -> R {
             }
             5 => {
                 let cur = m.by_id.get(&id).copied();
+                cstart();
                 let got = q.push_increase(Key::new(id, 1), Prio::new(p)).map(|x| x.v);
+                cend::<Q>("push_increase", ln, CK::Log)?;
                 let want = match cur {
                     None => {
                         m.set(id, p);
@@ -269,7 +433,9 @@ fn run<Q: Queue>(c: &HugeCase) -> R {
             }
             6 => {
                 let cur = m.by_id.get(&id).copied();
+                cstart();
                 let got = q.push_decrease(Key::new(id, 1), Prio::new(p)).map(|x| x.v);
+                cend::<Q>("push_decrease", ln, CK::Log)?;
                 let want = match cur {
                     None => {
                         m.set(id, p);
@@ -289,11 +455,13 @@ fn run<Q: Queue>(c: &HugeCase) -> R {
             _ => {
                 let mut shown = None;
                 let ans = r & 0x100 != 0;
+                cstart();
                 let got = q.pop_max_if(|k, pr| {
                     shown = Some((k.id, pr.v));
                     pr.v = p;
                     ans
                 });
+                cend::<Q>("pop_if", ln, CK::Log)?;
                 if let Some((sid, sp)) = shown {
                     if Some(sp) != m.max() {
                         return Err((Group::Order, "pop_if", format!("pop_if/pop_max_if showed ({},{}) but the maximum is {:?}", sid, sp, m.max())));
@@ -316,6 +484,8 @@ fn run<Q: Queue>(c: &HugeCase) -> R {
     {
         let cnt = 6;
         let mut writes = Vec::new();
+        let ln = q.len();
+        cstart();
         {
             let mut it = q.iter_mut();
             for j in 0..cnt {
@@ -333,6 +503,7 @@ fn run<Q: Queue>(c: &HugeCase) -> R {
                 }
             }
         }
+        cend::<Q>("iter_mut_drop", ln, CK::Linear(ln))?;
         for (id, np) in writes {
             m.set(id, np);
         }
@@ -364,7 +535,9 @@ fn run<Q: Queue>(c: &HugeCase) -> R {
         next_id += take as u32 + 1;
         let mut other = Q::from_vec(ov);
         let other_longer = other.len() > q.len();
+        cstart();
         q.append(&mut other);
+        cend::<Q>("append", q.len(), CK::Linear(q.len()))?;
         if other.len() != 0 || other.peek_max().is_some() {
             return Err((Group::Content, "append", "the other queue is not empty after append".into()));
         }
@@ -400,7 +573,10 @@ fn run<Q: Queue>(c: &HugeCase) -> R {
         for &(id, _, p) in pairs.iter() {
             m.set(id, p);
         }
+        let before = q.len();
+        cstart();
         q.extend_with(crate::interp::hinted(&pairs, crate::case::Hint::Exact));
+        cend::<Q>("extend", before, CK::Extend(k, before + k))?;
         verify(&q, &m, "extend", &mut st)?;
     }
     // sorted consumption of the whole (large) queue
@@ -463,22 +639,31 @@ fn run<Q: Queue>(c: &HugeCase) -> R {
     }
     // retain, clear + refill, clone
     {
+        let ln = q.len();
+        cstart();
         q.retain(|k, _| k.id % 3 != 0);
+        cend::<Q>("retain", ln, CK::Linear(ln))?;
         let gone: Vec<u32> = m.by_id.keys().copied().filter(|id| id % 3 == 0).collect();
         for id in gone {
             m.remove(id);
         }
         verify(&q, &m, "retain", &mut st)?;
+        cstart();
         let c2 = q.clone();
+        cend::<Q>("clone", ln, CK::Zero)?;
         if !c2.eq_q(&q) {
             return Err((Group::EqClone, "clone", "clone of a large queue differs from its source".into()));
         }
         drain_all(&c2, &m, "clone", &mut st)?;
+        cstart();
         q.clear();
+        cend::<Q>("clear", ln, CK::Zero)?;
         m = M::new();
         for j in 0..200u32 {
             let p = (rng(&mut st) >> 40) as i64 % 50;
+            cstart();
             q.push(Key::new(j, 0), Prio::new(p));
+            cend::<Q>("push", j as usize + 1, CK::Log)?;
             m.set(j, p);
         }
         verify(&q, &m, "clear", &mut st)?;
